@@ -212,6 +212,11 @@ pub(super) mod udp {
                         let filter = self.filters.iter_mut().find(|(id, _)| *id == session.server_session_id).map(|(_, f)| f);
                         if self.check_packet_id && !filter.is_some_and(|f| f.validate_packet_id(session.packet_id, u64::MAX)) {
                             log::warn!("[udp] drop packet, packet_id out of window; session={}", session);
+                            // tokio-util's UdpFramed reserves its receive buffer once per poll and, when the codec answers
+                            // None, reads the next datagram straight away: the room this datagram took has to be given back,
+                            // or a large datagram that follows a refused one is cut short (and then fails to open)
+                            src.clear();
+                            src.reserve(0x10000);
                             return Ok(None);
                         }
                         self.session.server_session_id = session.server_session_id;
